@@ -6,6 +6,7 @@ use crate::parser::{
 };
 use itertools::Itertools;
 use std::collections::HashMap;
+use std::convert::TryFrom;
 use std::sync::{Arc, Mutex};
 
 pub type EvaluationResult<T> = Result<T, EvaluationError>;
@@ -59,30 +60,31 @@ impl SymbolSnapshot {
 }
 
 impl BinaryOp {
-    fn apply_i64(&self, lhs: i64, rhs: i64) -> i64 {
+    /// Applies the operator. Returns `None` when the result cannot be represented (overflow, shift count outside 0..=63).
+    fn apply_i64(&self, lhs: i64, rhs: i64) -> Option<i64> {
         match self {
-            BinaryOp::Add => lhs + rhs,
-            BinaryOp::Sub => lhs - rhs,
-            BinaryOp::Mul => lhs * rhs,
+            BinaryOp::Add => lhs.checked_add(rhs),
+            BinaryOp::Sub => lhs.checked_sub(rhs),
+            BinaryOp::Mul => lhs.checked_mul(rhs),
             BinaryOp::Div => match rhs {
-                0 => 0,
-                _ => lhs / rhs,
+                0 => Some(0),
+                _ => lhs.checked_div(rhs),
             },
             BinaryOp::Mod => match rhs {
-                0 => 0,
-                _ => lhs % rhs,
+                0 => Some(0),
+                _ => lhs.checked_rem(rhs),
             },
-            BinaryOp::Shl => lhs << rhs,
-            BinaryOp::Shr => lhs >> rhs,
-            BinaryOp::Xor => lhs ^ rhs,
-            BinaryOp::Eq => (lhs == rhs) as i64,
-            BinaryOp::Ne => (lhs != rhs) as i64,
-            BinaryOp::Gt => (lhs > rhs) as i64,
-            BinaryOp::GtEq => (lhs >= rhs) as i64,
-            BinaryOp::Lt => (lhs < rhs) as i64,
-            BinaryOp::LtEq => (lhs <= rhs) as i64,
-            BinaryOp::And => (lhs != 0 && rhs != 0) as i64,
-            BinaryOp::Or => (lhs != 0 || rhs != 0) as i64,
+            BinaryOp::Shl => u32::try_from(rhs).ok().and_then(|s| lhs.checked_shl(s)),
+            BinaryOp::Shr => u32::try_from(rhs).ok().and_then(|s| lhs.checked_shr(s)),
+            BinaryOp::Xor => Some(lhs ^ rhs),
+            BinaryOp::Eq => Some((lhs == rhs) as i64),
+            BinaryOp::Ne => Some((lhs != rhs) as i64),
+            BinaryOp::Gt => Some((lhs > rhs) as i64),
+            BinaryOp::GtEq => Some((lhs >= rhs) as i64),
+            BinaryOp::Lt => Some((lhs < rhs) as i64),
+            BinaryOp::LtEq => Some((lhs <= rhs) as i64),
+            BinaryOp::And => Some((lhs != 0 && rhs != 0) as i64),
+            BinaryOp::Or => Some((lhs != 0 || rhs != 0) as i64),
         }
     }
 
@@ -169,7 +171,10 @@ impl<'a> Evaluator<'a> {
                                 }
                             }
                             if flags.contains(ExpressionFactorFlags::NEG) {
-                                number = -number;
+                                number = number.checked_neg().ok_or_else(|| EvaluationError {
+                                    span: factor.span,
+                                    message: format!("the result of '-{}' is out of range", number),
+                                })?;
                             }
                             Ok(Some(number.into()))
                         }
@@ -183,7 +188,16 @@ impl<'a> Evaluator<'a> {
                 let rhs = self.evaluate_expression(&bin.rhs, track_usage)?;
                 match (lhs, rhs) {
                     (Some(SymbolData::Number(lhs)), Some(SymbolData::Number(rhs))) => {
-                        Ok(Some(bin.op.data.apply_i64(lhs, rhs).into()))
+                        match bin.op.data.apply_i64(lhs, rhs) {
+                            Some(result) => Ok(Some(result.into())),
+                            None => Err(EvaluationError {
+                                span: bin.op.span,
+                                message: format!(
+                                    "the result of '{} {} {}' is out of range",
+                                    lhs, bin.op.data, rhs
+                                ),
+                            }),
+                        }
                     }
                     (Some(SymbolData::String(lhs)), Some(SymbolData::String(rhs))) => {
                         match bin.op.data.try_apply_str(lhs, rhs) {
